@@ -746,7 +746,12 @@ pub fn gen_c06(seed: u64) -> Scenario {
         for _ in 0..n {
             let c = g.rng.below(100);
             if c < 12 {
-                steps.push(Step::Key(KeyOp::Get));
+                // now and then the request is repeated more often than a small counter can count
+                if g.rng.chance(1, 25) {
+                    steps.push(Step::Key(KeyOp::GetMany(*g.rng.pick(&[300u32, 70_000, 70_000]))));
+                } else {
+                    steps.push(Step::Key(KeyOp::Get));
+                }
             } else if c < 20 {
                 steps.push(Step::Key(KeyOp::Drop));
             } else if c < 23 {
